@@ -16,5 +16,5 @@ rc=$?
 if [ $rc -ne 0 ]; then git checkout -- .; exit $rc; fi
 (cd /verif && "$@")
 rc=$?
-cd /repo && git checkout -- .
+cd /repo && git checkout -- .; git -C /verif checkout -- evidence 2>/dev/null
 echo "mutant exit=$rc"
